@@ -1,7 +1,7 @@
 (* C18: which glyphs count as "of a left-to-right script" for the cursive lookups.
    util.classifyGlyphs for one property value (here LTR): the glyphs the cmap maps LTR characters to, closed over the
    GSUB table together with the neutral glyphs (fontTools' subsetter closure -- environment, here a parameter of the
-   section characterised by reachability), minus the closure of the neutral glyphs, plus ONE step of the designspace
+   section characterised by reachability over the table's rules, ligatures included), minus the closure of the neutral glyphs, plus ONE step of the designspace
    rule substitutions (`extra_substitutions`). *)
 From U2F Require Import Base.Prelude.
 
@@ -35,11 +35,14 @@ Section Classify.
     union g (one_step g).
 End Classify.
 
-(* an executable closure over single-substitution edges (what the check runs beside fontTools' subsetter closure):
-   |E| rounds of "add every target whose source is present" reach the fixpoint *)
-Definition close_step (E : list (str * str)) (s : list str) : list str :=
-  union s (map snd (filter (fun e => mem (fst e) s) E)).
-Definition closure (E : list (str * str)) (s : list str) : list str := iterate (length E) (close_step E) s.
+(* an executable closure over GSUB rules (what the check runs beside fontTools' subsetter closure): a rule is a list of
+   input glyphs and an output glyph -- one input for single / alternate substitutions, several for a ligature -- and fires
+   when all its inputs are present; |E| rounds reach the fixpoint *)
+Definition rule := (list str * str)%type.
+Definition close_step (E : list rule) (s : list str) : list str :=
+  union s (map snd (filter (fun e => forallb (fun a => mem a s) (fst e)) E)).
+Fixpoint iterate_n {A} (n : nat) (f : A -> A) (x : A) : A := match n with O => x | S k => iterate_n k f (f x) end.
+Definition closure (E : list rule) (s : list str) : list str := iterate_n (length E) (close_step E) s.
 
 Definition same_set (a b : list str) : bool := forallb (fun x => mem x b) a && forallb (fun x => mem x a) b.
 
